@@ -3,8 +3,8 @@ SPECIFICATION Spec
 CONSTANTS
  Kind = "map"
  Replicas = {1, 2, 3}
- MaxLocal = 2
- MoreLocal = {}
+ MaxLocal = 1
+ MoreLocal = {1}
  MaxBatch = 1
  Keys = {"a", "b"}
  Deltas = {1}
